@@ -3,6 +3,8 @@ package props
 import (
 	"math/big"
 
+	"github.com/consensys/gnark/frontend"
+
 	"pgregory.net/rapid"
 
 	"verifharness/ref"
@@ -63,4 +65,52 @@ func genNonZeroField(t *rapid.T, label string) *big.Int {
 
 func pick[T any](t *rapid.T, label string, xs ...T) T {
 	return xs[rapid.IntRange(0, len(xs)-1).Draw(t, label)]
+}
+
+func addMod(v *big.Int, d int64) *big.Int {
+	x := new(big.Int).Add(v, big.NewInt(d))
+	return x.Mod(x, ref.R)
+}
+
+func errStr(err error) string {
+	if err == nil {
+		return ""
+	}
+	s := err.Error()
+	if len(s) > 160 {
+		s = s[:160]
+	}
+	return s
+}
+
+func intsToVars(d []int) []frontend.Variable {
+	o := make([]frontend.Variable, len(d))
+	for i := range d {
+		o[i] = d[i]
+	}
+	return o
+}
+
+func toVars(d []*big.Int) []frontend.Variable {
+	o := make([]frontend.Variable, len(d))
+	for i := range d {
+		o[i] = d[i]
+	}
+	return o
+}
+
+func digitsOf(v *big.Int, n int) []*big.Int {
+	d := make([]*big.Int, n)
+	for i := range d {
+		d[i] = big.NewInt(int64(v.Bit(i)))
+	}
+	return d
+}
+
+// arrange is the specified output of the decomposition: big-endian bytes of
+// v at width n/8, bits least-significant first inside each byte.
+func arrange(v *big.Int, n int) []int {
+	buf := make([]byte, n/8)
+	new(big.Int).And(v, new(big.Int).Sub(ref.Pow2(n), big.NewInt(1))).FillBytes(buf)
+	return ref.BytesToBitsLSB(buf)
 }
